@@ -76,7 +76,7 @@ theorem exec_good : ∀ (f : Nat), IH sc f := by
   induction f with
   | zero =>
     intro t w hI ht hwf hg
-    exact { le := NFle.refl _, nocrash := by simp [exec], ghost := by simpa [exec, emit] using hg,
+    exact { le := NFle.refl _, nocrash := by simp [exec], nohang := by simp [exec], ghost := by simpa [exec, emit] using hg,
             wf := by simpa [exec, emit, WorldWf] using hwf, val := by simp [exec] }
   | succ f ih =>
     intro t w hI ht hwf hg
@@ -305,6 +305,31 @@ theorem exec_good : ∀ (f : Nat), IH sc f := by
         | nop =>
           simp only [leaf_andThen]
           exact hK _ none hI (NFle.refl _) hwf hg
+        | obf =>
+          simp only [ite_andThen, crash_andThen]
+          refine good_ite (fun h => crash_absurd (by simp [anyFreed_ol hI] at h)) (fun _ => ?_)
+          simp only [andThen_assoc]
+          refine step_good sc ih (by exact hI) ⟨hself, fun x hx => ?_⟩ (by exact hwf) (by exact hg) (NFle.refl _) ?_
+          · have := (hI.lists.olMem x).mp hx
+            exact live_nf hI this.1 this.2
+          · intro w1 v hI1 hle1 hwf1 hg1 hv
+            simp only [ite_andThen, leaf_andThen]
+            exact good_ite (fun _ => hK _ none hI1 hle1 hwf1 hg1) (fun _ => hK _ none hI1 hle1 hwf1 hg1)
+        | ct o =>
+          simp only
+          have g := ih (.ops self arg [o]) (emit { w with catching := w.catching + 1 } s!"ctb {oid self}")
+            (by exact hI) (by exact hself) (by exact hwf) (by exact hg)
+          have hI1 := exec_inv sc f (.ops self arg [o]) (emit { w with catching := w.catching + 1 } s!"ctb {oid self}") (by exact hI)
+          split
+          · simp only [leaf_andThen]
+            exact hK _ none hI1 g.le g.wf g.ghost
+          · simp only [leaf_andThen]
+            exact hK _ none hI1 g.le (fun gg hgg => g.le _ (hwf gg hgg)) g.ghost
+          · rename_i hne1 hne2
+            unfold R.andThen
+            split
+            · rename_i hok; exact absurd hok (by intro h; exact hne1 h)
+            · exact g
     | hook x k arg =>
       simp only [exec]
       have hx : NF w.c x := ht.1
@@ -378,7 +403,7 @@ theorem exec_good : ∀ (f : Nat), IH sc f := by
       refine good_ite (fun _ => good_raise (NFle.refl _) hg hwf) (fun hid => ?_)
       split
       · rename_i hw; exact absurd hw (superWalk_not_freed hI item _ dest hdt)
-      · exact good_hang (NFle.refl _) hg hwf
+      · rename_i hw; exact absurd hw (superWalk_not_loop hI item dest hdt.1)
       · exact good_raise (NFle.refl _) hg hwf
       · rename_i hclear
         have hchk := superWalk_clear _ _ hclear
@@ -593,6 +618,21 @@ theorem exec_good : ∀ (f : Nat), IH sc f := by
           · intro _
             refine good_ite (fun _ => good_leaf hle1 hg1 hwf1) (fun hd2 => ?_)
             refine (ih (.dloop ob sup0 saveR) { w1 with restrict := saveR } (by exact hI1) ⟨hle1 _ hob, by simpa using hd2, fun s hs => hle1 _ (hsup s hs)⟩ (by exact hwf1) (by exact hg1)).mono hle1
+    | objloop self rest acc =>
+      simp only [exec]
+      obtain ⟨hself, hrest⟩ := ht
+      split
+      · exact good_val (NFle.refl _) hg hwf (fun x hx => by cases hx; exact hself)
+      · rename_i ob rest'
+        have hob : NF w.c ob := hrest ob (by simp)
+        have hrest' : ∀ x ∈ rest', NF w.c x := fun x hx => hrest x (by simp [hx])
+        refine good_ite (fun h => crash_absurd (by rcases h with h | h; exact h hob.1; simp [hob.2] at h)) (fun _ => ?_)
+        refine good_ite (fun _ => ih (.objloop self rest' acc) w hI ⟨hself, hrest'⟩ hwf hg) (fun _ => ?_)
+        refine good_ite (fun h => crash_absurd (by rcases h with h | h; exact h hself.1; simp [hself.2] at h)) (fun _ => ?_)
+        refine good_ite (fun _ => good_raise (NFle.refl _) hg hwf) (fun _ => ?_)
+        refine step_good sc ih hI ⟨hself, by intro y h; cases h⟩ hwf hg (NFle.refl _) ?_
+        intro w1 v hI1 hle1 hwf1 hg1 hv
+        exact (ih (.objloop self rest' (ob :: acc)) w1 hI1 ⟨hle1 _ hself, fun x hx => hle1 _ (hrest' x hx)⟩ hwf1 hg1).mono hle1
 
 /-- whatever is closed under the three state changes of the LPC probe survives it -/
 theorem probe_pres (Q : World → Prop) (hemit : ∀ w s, Q w → Q (emit w s))
@@ -674,7 +714,7 @@ theorem hbRound_good (sc : Scripts) : ∀ (fuel : Nat) (w : World), Inv w.c → 
         exact (ih _ (by exact hI1) hwf1' (by exact hg1)).mono hle1
 
 theorem stepCmd_ok (sc : Scripts) {w : World} (cmd : Cmd) (hw : WorldOk w) :
-    WorldOk (stepCmd sc w cmd) ∧ topOut sc w cmd ≠ .crash := by
+    WorldOk (stepCmd sc w cmd) ∧ topOut sc w cmd ≠ .crash ∧ topOut sc w cmd ≠ .hang := by
   cases cmd with
   | top op =>
     simp only [stepCmd, topOut]
@@ -685,14 +725,14 @@ theorem stepCmd_ok (sc : Scripts) {w : World} (cmd : Cmd) (hw : WorldOk w) :
         apply Classical.byContradiction; intro hc; exact hm hc
       have g := exec_good sc topFuel (.ops 1 none [op]) w hw.inv (live_nf hw.inv hm'.1 hm'.2) hw.wf hw.ghost
       have hI := exec_inv sc topFuel (.ops 1 none [op]) w hw.inv
-      refine ⟨?_, g.nocrash⟩
+      refine ⟨?_, g.nocrash, g.nohang⟩
       split
       · exact ⟨hI, g.wf, g.ghost⟩
       · exact ⟨hI, fun gg hgg => g.le _ (hw.wf gg hgg), g.ghost⟩
       · exact ⟨hI, g.wf, g.ghost⟩
   | tick =>
     have g0 := hbRound_good sc (w.hbl.length + 1000) { w with hbTodo := w.hbl.length, hbIdx := 0 } hw.inv hw.wf hw.ghost
-    refine ⟨?_, by simp only [topOut]; split; simp; exact g0.nocrash⟩
+    refine ⟨?_, by simp only [topOut]; split; simp; exact g0.nocrash, by simp only [topOut]; split; simp; exact g0.nohang⟩
     simp only [stepCmd, tick]
     split
     · exact ⟨hw.inv, hw.wf, hw.ghost⟩
